@@ -43,6 +43,21 @@ func factDiff(a, b *Fact, na, nb int64) []string {
 					d = append(d, "F.In."+ia.Type().Field(j).Name)
 				}
 			}
+		case "Any":
+			pa, _ := a.Any.(*Inner)
+			pb, _ := b.Any.(*Inner)
+			if pa == nil || pb == nil {
+				if (pa == nil) != (pb == nil) {
+					d = append(d, "F.Any")
+				}
+				continue
+			}
+			ia, ib := reflect.ValueOf(*pa), reflect.ValueOf(*pb)
+			for j := 0; j < ia.NumField(); j++ {
+				if !reflect.DeepEqual(ia.Field(j).Interface(), ib.Field(j).Interface()) {
+					d = append(d, "F.Any."+ia.Type().Field(j).Name)
+				}
+			}
 		case "Arr", "FArr", "SArr":
 			if x.Len() != y.Len() {
 				d = append(d, "F."+f.Name)
@@ -861,6 +876,8 @@ func pathShape(v *Var) string {
 		return "slice element"
 	case strings.HasPrefix(t, "F.In."):
 		return "nested pointer field"
+	case strings.HasPrefix(t, "F.Any."):
+		return "field behind an interface-typed field"
 	}
 	return "struct field " + strings.TrimPrefix(t, "F.")
 }
